@@ -247,9 +247,9 @@ def r_complete(ctx, rule='R01.5'):
 
 def _check_best_value_term(ctx, rule, inst, body, where, bv):
     good = False
-    if M.is_call(bv, 'map') and solver_field(bv[2][0], 'best_sol'):
-        rt = _closure_ret(ctx.F, bv[2][1])
-        good = rt is not None and is_lb(ctx.F)(rt)
+    om = opt_map(bv)
+    if om is not None and solver_field(om[0], 'best_sol'):
+        good = is_lb(ctx.F)(om[1])
     ctx.check(good, rule, inst, body, where, 'the reported value is best_sol.map(|_| best_lb): present iff a solution is stored, equal to the incumbent',
               'the reported best value is %s, not best_sol.as_ref().map(|_| best_lb)' % M.show(bv))
 
@@ -310,8 +310,9 @@ def r_incumbent(ctx, rule='R02.1'):
         ws = writers.get(mb.name, {})
         def exact_val(t):
             # mdd.best_exact_value().unwrap_or(MIN)  |  the payload v of `if let Some(v) = mdd.best_exact_value()` / match / unwrap
-            if M.is_call(t, 'unwrap_or') and M.is_call(t[2][0], 'DecisionDiagram::best_exact_value') and M.is_const(t[2][1]) and (t[2][1][2] or '').endswith('MIN'):
-                return t[2][0]
+            f = opt_fold(t)
+            if f is not None and M.is_call(f[0], 'DecisionDiagram::best_exact_value') and f[1] == opt_payload(f[0]) and is_min_const(f[2]):
+                return f[0]
             if M.is_field(t, '0') and isinstance(t[1], tuple) and t[1][0] == 'variant' and t[1][2] == 'Some' and M.is_call(t[1][1], 'DecisionDiagram::best_exact_value'):
                 return t[1][1]
             return None
@@ -885,13 +886,12 @@ def r_abort(ctx):
             has_param = any(M.is_param(x) and x[1] == asb.name for x in items)
             has_inflight = any(M.contains(x, lambda y: M.is_field(y, 'upper_bounds', 'Critical')) and M.contains(x, lambda y: M.is_call(y, 'Iterator::max', 'max', 'fold')) for x in items)
             def is_top(x):
-                if not M.contains(x, lambda y: M.is_call(y, 'Fringe::pop')):
-                    return False
-                if M.is_call(x, 'map_or', 'map'):
-                    rt = _closure_ret(F, x[2][-1])
-                    return rt is not None and is_subproblem_field(rt, 'ub')
-                return is_subproblem_field(x, 'ub')
-            has_top = any(is_top(x) or (M.is_call(x, 'unwrap_or') and is_top(x[2][0])) for x in items)
+                # ub of the sub-problem on top of the fringe, MIN (or nothing) when the fringe is empty
+                f = opt_fold(x)
+                if f is not None:
+                    return M.is_call(f[0], 'Fringe::pop') and is_subproblem_field(f[1], 'ub') and f[1][1] == opt_payload(f[0])
+                return is_subproblem_field(x, 'ub') and M.contains(x, lambda y: M.is_call(y, 'Fringe::pop'))
+            has_top = any(is_top(x) for x in items)
             prev = any(solver_field(x, 'best_ub') for x in items)
             # the previous value may be skipped only on the edge asserting best_ub == MAX
             first_abort = lambda atoms: any(
@@ -1004,15 +1004,10 @@ def r_must_explore(ctx, rule='R09.6'):
     for b in bodies:
         ctx.analysed_bodies.add(b.name)
         who = (b.impl_self_adt or 'Cache(default)').split('::')[-1]
-        paths = M.enumerate_paths(b, (0, 0))
         n = 0
         bad = []
-        for (edges, blocks, end) in paths:
-            atoms = M.path_atoms(b, edges)
-            if not M.consistent(atoms):
-                continue
+        for (atoms, rt, blocks, end) in bool_fn_paths(b):
             n += 1
-            rt = _path_ret(b, blocks, end)
             if M.is_const(rt, True):
                 continue   # exploring is always allowed
             # the path may answer false: that is admissible only if value < theta, or value == theta and explored
